@@ -20,7 +20,8 @@ RULE = (
     "ods} x cells generated from the rule and single mutations of them, judged by the reference semantics in "
     "vlib/model_fields.py (three-valued). The field is built directly and through Cid.read; delimited and fixed "
     "fields are additionally read through cutplace.rows(on_error='yield'). Exhaustive: Integer with only a length, "
-    "all length declarations over 0..5 x every canonical integer of up to 5 (quick) / 6 (thorough) characters. "
+    "all length declarations over 0..5 x every canonical integer of up to 5 (quick) / 6 (thorough) characters and 12 "
+    "longer ones around 2^31, 2^63, 2^64 and 10^30. "
     "Non-trivial case: at least one must-reject cell and one must-accept non-empty cell; distinct by hash of "
     "(format, declaration, cells)."
 )
@@ -188,6 +189,10 @@ def _canonical_ints(max_chars):
         yield n
     for n in range(1, 10 ** (max_chars - 1)):
         yield -n
+    # longer ones around the limits of 32 and 64 bit numbers (a length that is open upwards admits them)
+    for n in (2 ** 31 - 1, 2 ** 31, -(2 ** 31), -(2 ** 31) - 1, 9999999999, 10 ** 10, 2 ** 63 - 1, 2 ** 63, -(2 ** 63) - 1,
+              2 ** 64, 12345678901234567890, 10 ** 30):
+        yield n
 
 
 def _sweep_shard(args):
